@@ -498,8 +498,45 @@ func analysePackage(pkg string, files []string) {
 		for _, d := range f.Decls {
 			if fd, ok := d.(*ast.FuncDecl); ok {
 				analyseFunc(pkg, fd, pkgVars, poolVars)
+				syncSkeleton(pkg, fd)
 			}
 		}
+	}
+}
+
+// syncSkeleton records, per function, how often it mentions the synchronisation vocabulary: qualified
+// names of the packages sync and atomic (sync.WaitGroup, sync.Mutex, atomic.LoadUint32, ...) and calls
+// of methods named Lock Unlock RLock RUnlock Wait Done LoadOrStore Do Add Load Store Range Delete
+// CompareAndSwap Swap on anything (purely syntactic)
+var syncFacts [][3]string
+
+func syncSkeleton(pkg string, fd *ast.FuncDecl) {
+	if fd.Body == nil {
+		return
+	}
+	name := fd.Name.Name
+	if fd.Recv != nil && len(fd.Recv.List) == 1 {
+		name = exprString(fd.Recv.List[0].Type) + "." + name
+	}
+	counts := map[string]int{}
+	methods := map[string]bool{"Lock": true, "Unlock": true, "RLock": true, "RUnlock": true, "Wait": true, "Done": true, "LoadOrStore": true, "Do": true, "Add": true, "Load": true, "Store": true, "Range": true, "Delete": true, "CompareAndSwap": true, "Swap": true}
+	ast.Inspect(fd, func(n ast.Node) bool {
+		switch x := n.(type) {
+		case *ast.SelectorExpr:
+			if id, ok := x.X.(*ast.Ident); ok && (id.Name == "sync" || id.Name == "atomic") {
+				counts[id.Name+"."+x.Sel.Name]++
+			}
+		case *ast.CallExpr:
+			if sel, ok := x.Fun.(*ast.SelectorExpr); ok && methods[sel.Sel.Name] {
+				if id, ok := sel.X.(*ast.Ident); !ok || (id.Name != "sync" && id.Name != "atomic") {
+					counts["."+sel.Sel.Name]++
+				}
+			}
+		}
+		return true
+	})
+	for k, c := range counts {
+		syncFacts = append(syncFacts, [3]string{pkg + ":" + name, k, fmt.Sprint(c)})
 	}
 }
 
@@ -593,6 +630,19 @@ func main() {
 			sb.WriteString("; ")
 		}
 		fmt.Fprintf(&sb, "(%s, %s)", q(f[0]), q(f[1]))
+	}
+	sb.WriteString("].\n\n(* the synchronisation vocabulary each function mentions: (function, token, count) *)\nDefinition syncfacts : list (string * string * nat) := [")
+	sort.Slice(syncFacts, func(i, j int) bool {
+		if syncFacts[i][0] != syncFacts[j][0] {
+			return syncFacts[i][0] < syncFacts[j][0]
+		}
+		return syncFacts[i][1] < syncFacts[j][1]
+	})
+	for i, f := range syncFacts {
+		if i > 0 {
+			sb.WriteString("; ")
+		}
+		fmt.Fprintf(&sb, "(%s, %s, %s)", q(f[0]), q(f[1]), f[2])
 	}
 	sb.WriteString("].\n")
 	target := filepath.Join(out, "FactsGen.v")
